@@ -12,8 +12,9 @@ vars == <<c, s, cur, hist>>
 Env == [depth |-> 1, events |-> 1, key |-> 1, value |-> 1, payload |-> 1, event |-> 1,
         heapEnv |-> 3, heapRun |-> 2, heapFrame |-> 1, heapObj |-> 1,
         trackRun |-> 2, trackBase |-> 3, trackKey |-> 1, kvDefault |-> 1,
-        trackFirst |-> [ret |-> 1, emit |-> 1, write |-> 0, alloc |-> 1],
-        trackFirstCommit |-> [ret |-> 0, emit |-> 1, write |-> 0, alloc |-> 1]]
+        fieldCal |-> 1,
+        trackFirst |-> [ret |-> 1, emit |-> 1, write |-> 0, alloc |-> 1, iwrite |-> 0, swrite |-> 1, fwrite |-> 1],
+        trackFirstCommit |-> [ret |-> 0, emit |-> 1, write |-> 0, alloc |-> 1, iwrite |-> 0, swrite |-> 1, fwrite |-> 1]]
 
 Cfgs == {[depth |-> d, heap |-> h, track |-> t, key |-> 2, value |-> 2, payload |-> 2, event |-> 2,
           log |-> 2, panic |-> 2, logs |-> l, events |-> e] :
@@ -30,7 +31,10 @@ DoLog == \E n \in Sizes : TRUE /\ Do(LogOp(n))
 DoPanic == \E n \in Sizes : TRUE /\ Do(PanicOp(n))
 DoWrite == \E k \in Sizes, n \in Sizes : TRUE /\ Do(WriteOp(k, n))
 DoAlloc == \E n \in Sizes : TRUE /\ Do(AllocOp(n))
-Next == DoCall \/ DoRet \/ DoEmit \/ DoLog \/ DoPanic \/ DoWrite \/ DoAlloc
+DoIWrite == \E k \in Sizes, n \in Sizes : TRUE /\ Do(IWriteOp(k, n))
+DoSWrite == \E k \in {0, 1}, n \in Sizes : TRUE /\ Do(SWriteOp(k, n))
+DoFWrite == \E n \in Sizes : TRUE /\ Do(FWriteOp(n))
+Next == DoCall \/ DoRet \/ DoEmit \/ DoLog \/ DoPanic \/ DoWrite \/ DoAlloc \/ DoIWrite \/ DoSWrite \/ DoFWrite
 Spec == Init /\ [][Next]_vars
 
 InvWithin == s.fail = "" => Within(s, c, Env)
